@@ -1094,6 +1094,25 @@ def rule_enter_installs(ctx: Ctx, clause: str, rule="TS.enter-installs", prev_ho
                       why_bad=f"path [{m.path.cond_text()[:200]}] returns {flow.dump(v)[:80]} as a success although the vehicle's activity was not written: "
                               f"after the previous activity's exit the vehicle is in neither activity's books",
                       construct=f"{sc.name}.enter:success-without-install")
+    # ... and the helper they all end in really writes the activity: every path of apply_new_vehicle_state that is not an error returns
+    # modify_vehicle(sim, <the vehicle>.modify_vehicle_state(new_state)) -- a "success" that hands the state back unchanged lets enter()
+    # report an activity the vehicle is not in, after enter() has already taken its plug / stall / assignment
+    h = ctx.repo.func("nrel/hive/state/vehicle_state/vehicle_state.py", "VehicleStateABC.apply_new_vehicle_state")
+    sim, vid, new = h.params[-3:]
+    k = 0
+    for p in flow.paths(h.node):
+        if p.kind != "return" or flow.classify_result(p.value) == "error":
+            continue
+        k += 1
+        ok = False
+        v0 = flow.core(p.value) if p.value is not None else None
+        if isinstance(v0, ast.Call) and (dotted(v0.func) or "").split(".")[-1] in ("modify_vehicle", "modify_vehicle_safe") and len(v0.args) >= 2 and flow.dump(v0.args[0]) == sim:
+            ok = any(c.args and flow.dump(flow.core(c.args[0])) == new and vid in flow.dump(c.func) for c in flow.calls_in(v0.args[1], "modify_vehicle_state"))
+        ctx.check(ok, clause, rule, "apply_new_vehicle_state writes the new activity onto the vehicle on every path that is not an error", h, p.end,
+                  why_bad=f"path [{p.cond_text()[:160]}] returns {flow.dump(p.value)[:100]}: the enter() that called it reports success (and has already taken its plug, stall or request "
+                          f"assignment) although the vehicle's activity was not written",
+                  construct="apply_new_vehicle_state:success-without-install")
+    ctx.require(k >= 1, "apply_new_vehicle_state: no installing path found")
     return n
 
 
